@@ -224,6 +224,23 @@ pub fn run(fam: &str, t: &mut Toks) -> Option<R<String>> {
                         Err(_) => "err".into(),
                     }
                 }
+                "ca_w4" => {
+                    // From<ContentAddress> for [Word; 4] and back, From<[u8; 32]> both ways
+                    let a = ContentAddress(t.bytes32()?);
+                    let w: [i64; 4] = a.clone().into();
+                    let back: ContentAddress = w.into();
+                    let raw: [u8; 32] = a.clone().into();
+                    let back2: ContentAddress = raw.into();
+                    format!("{} {} {}", show_words(&w), hex_of(&back.0), hex_of(&back2.0))
+                }
+                "sig65" => {
+                    // From<Signature> for [u8; 65] and back
+                    let b = t.bytes()?;
+                    let a: [u8; 65] = b.try_into().map_err(|_| "len".to_string())?;
+                    let s: Signature = a.into();
+                    let back: [u8; 65] = s.clone().into();
+                    format!("{} {} {}", hex_of(&s.0), s.1, hex_of(&back))
+                }
                 "bool" => match cv::bool_from_word(t.int()?) {
                     Some(b) => format!("some {b}"),
                     None => "none".into(),
